@@ -143,7 +143,7 @@ def make_check_arg_attrs(suffix, targs, params, extra_req=()):
         params={"self": SELF, "node": ("opt", NODE), "arg": _arg_decl(targs, params), "options": ("opt", OPTIONS)},
         # call sites: a FunctionNode/FortranGeneric (options may be passed), or node None with options (function pointer params)
         requires=["arg.is_indirect() >= 0", "node is not None or options is not None"] + list(extra_req),
-        modifies=["arg.attrs", "arg.metaattrs", "arg"],
+        modifies=["arg.attrs", "arg.metaattrs", "arg", "node"],      # node: _has_default_arg, _gen_fortran_generic flags
         callee_units={("VerifyAttrs", "check_intent_attr"): check_intent_attr,
                       ("VerifyAttrs", "check_common_attrs"): check_common_attrs,
                       ("VerifyAttrs", "parse_attrs"): parse_attrs},
